@@ -268,7 +268,11 @@ def main(tier: str) -> int:
                 run.violation({"clause": "round-trip-differs", "parse": how, **key}, f"lost {a}, gained {b} ({len(want)} vs {len(got)} statements)", rp)
         if len(samples) < 3:
             samples.append({"key": key, "statements": len(case["want"]), "bytes": len(case["data"])})
+    from .. import usage as _usage  # noqa: PLC0415
+
+    usage_cov = _usage.write_lattice(run, "rdflib")
     return run.finish({
+        "usage_lattice": usage_cov,
         "states": states + jst["states"], "transitions": trans + jst["transitions"], "traces_validated_against_impl": len(traces), "samples": samples,
         "exhaustive": False, "slices": cov, "cases": len(cases), "undersized_tables_refused": refused, "plugin_conventions_round_trips": conv, "state_graph_comparison_rdflib_encoder": graph,
         "explanation": "state graph of the serializer under the rdflib term encoder (every reachable state x every call of RDF 1.1 slices, Tier-1 inductive step judged by TLC on each real edge); RDF 1.1 behaviours of PyWriter (TLC simulation; default/IRI/bnode graph names, plain/lang/typed objects incl. xsd:string and non-canonical lexical forms) "
